@@ -155,7 +155,10 @@ fn biased_pos(dna: &mut Dna, n: usize) -> usize {
 }
 
 pub fn gen_noise(dna: &mut Dna) -> (Vec<u8>, String) {
-    let kind = dna.below(4);
+    let kind = dna.below(5);
+    if kind == 4 {
+        return (crate::gen_syn::degenerate_dynamic_block(dna), "noise:degenerate-dynamic-header".into());
+    }
     let n = match dna.weighted(&[40, 40, 20]) {
         0 => dna.range(0, 16),
         1 => dna.range(16, 300),
